@@ -7,15 +7,22 @@
     error only for a name met within the expanded levels, and - the one liveness property of the
     suite - every started expansion halts (PROPERTY Halts under SPECIFICATION Spec with weak
     fairness of the machine step only, the environment changing the working directory at will).
+    The universe also holds what only matters to a wrong implementation: a line ending per file
+    (chunks are written out with the line ending of the file they stand in), chunks that mention
+    the word "include" without being a directive, and decoy files (the same relative name exists
+    below the including file's / another directory).
     Negative configurations (machine limit 4 / 6, resolving against the cwd / the including file's
-    directory, no fairness) must be rejected by TLC.
+    directory, includer-first / cwd-first lookup, included files read with translated line ends,
+    the limit fired by the mere word at level 5, no fairness) must be rejected by TLC.
 (G) verdict: TLC emits each graph with its expected outcome (the flattened chunk sequence, or the
     set of permitted error classes).  The graph is realised in a temporary directory tree: a
-    generated document (spec/Reader.tla walk rendered by harness/concretise.py, no multi-line
-    strings, no INCLUDE keyword as data) is cut at item-line boundaries into the chunks, laid over
-    the content lines in the order of the expected sequence; the root is loaded through
-    mappyfile.open / load / loads from differing working directories.  Expected dict = dict of
-    the un-cut document loaded by the same mappyfile.  With expand_includes=False the directives
+    generated document (spec/Reader.tla walk rendered by harness/concretise.py, string values that
+    span lines included, no INCLUDE keyword as data) is cut at item-line boundaries - never inside
+    a value - into the chunks, laid over the content lines in the order of the expected sequence,
+    every file written with its own line ending; the root is loaded through mappyfile.open / load
+    / loads from differing working directories.  Expected dict = dict of the substituted text
+    (the chunks in the expected order, each with the line ending the spec attaches to it) loaded
+    by the same mappyfile.  With expand_includes=False the directives
     must come back as `include` lists and dumps must write them back.
 """
 from __future__ import annotations
@@ -344,10 +351,13 @@ def build_case(g, hist, cseed, rseed, idx):
         files[fpath[f]] = text
     # decoys: the same relative name exists below another directory, with other content
     decoy_dirs = []
+    # (paths that must stay absent: what the names denoting no file resolve to under the property)
+    absent = {os.path.normpath(os.path.join(dpath[ln["base"]], name_of(ln, (f, i)))) if ln["st"] == "rel"
+              else name_of(ln, (f, i))[len(PLACE) + 1:] for f, i, ln in incs if ln["t"] == 0}
     for f, i, ln in incs:
         if ln["alt"] and ln["st"] == "rel":
             dp = os.path.normpath(os.path.join(dpath[ln["altdir"]], name_of(ln, (f, i))))
-            if dp.startswith("..") or os.path.isabs(dp) or dp in files:
+            if dp.startswith("..") or os.path.isabs(dp) or dp in files or dp in absent:
                 continue                      # (would leave the tree / hit a real file: not planted)
             files[dp] = "# decoy %d\n" % ln["alt"]
             decoy_dirs.append(dpath[ln["altdir"]])
@@ -367,7 +377,7 @@ def build_case(g, hist, cseed, rseed, idx):
     cwds = [extra_dirs[0], "", dpath[rng.randrange(ndirs)], extra_dirs[1], "/"] + decoy_dirs * 2
     nls = sorted(set(g["nl"]))
     return {"idx": idx, "graph": g, "dirs": dpath + extra_dirs, "files": files, "root": fpath[0],
-            "rootdir": dpath[g["dir"][0]], "base": base, "whole": whole, "plain": "\n".join(lines) + "\n",
+            "rootdir": dpath[g["dir"][0]], "base": base, "whole": whole, "plain": NL[g["nl"][0]].join(lines) + NL[g["nl"][0]],
             "nl": NL[g["nl"][0]], "nlname": nls[0] if len(nls) == 1 else "mixed", "styles": "+".join(styles) or "none",
             "cwd_open": rng.choice(cwds), "cwd_load": rng.choice(cwds),
             "root_rel_open": rng.random() < 0.5, "root_rel_load": rng.random() < 0.5,
